@@ -156,7 +156,21 @@ pub fn run(opts: &Opts) -> i32 {
         let n_target = if opts.tier == Tier::Thorough && ci >= 4 { rng.range(400_000, 1_000_000) } else { rng.range(70_000, 140_000) };
         let stranded = rng.chance(1, 2);
         let base = build_base(cs, n_target, stranded);
-        let serial = base.clone().finish_serial();
+        let serial = match guarded(|| base.clone().finish_serial()) {
+            Ok(g) => g,
+            Err((loc, msg)) => {
+                violations += 1;
+                println!("violation check=c19-large class=panic: finish_serial() on {} nodes panicked at {}: {}", base.len(), loc, msg.chars().take(160).collect::<String>());
+                let _ = std::fs::create_dir_all(&opts.replay_dir);
+                let path = opts.replay_dir.join(format!("C19-c19-large-{}.json", cs));
+                let _ = std::fs::write(&path, serde_json::to_string_pretty(&json!({"property": "C19", "check": "c19-large", "engine": "S", "verif_seed": opts.seed, "case_seed": cs,
+                    "violation": {"class": "panic", "site": "BaseGraph::finish_serial (large graph)", "detail": format!("{} at {}", msg, loc)},
+                    "replay": format!("sim-std c19-large --seed {} --tier {}", opts.seed, opts.tier.as_str())})).unwrap());
+                println!("VIOLATION property=C19 replay={}", path.display());
+                replay_files.push(path.display().to_string());
+                continue;
+            }
+        };
         let idx = RefIndex::build(&serial).expect("distinct terminal k-mers");
         let want = match answers(&serial, &idx) {
             Ok(d) => d,
@@ -232,10 +246,17 @@ pub fn run(opts: &Opts) -> i32 {
         let cs = derive(opts.seed, "c19-far", 0);
         let small = build_base(cs, 3_000, false);
         let base = relocate_far(&small);
-        let serial = base.clone().finish_serial();
-        let idx = RefIndex::build(&serial).expect("distinct terminal k-mers");
         let mut outcome = "identical".to_string();
-        match answers(&serial, &idx) {
+        let serial = match guarded(|| base.clone().finish_serial()) {
+            Ok(g) => g,
+            Err((loc, msg)) => {
+                outcome = format!("finish_serial() over a store straddling base offset 2^31 panicked at {}: {}", loc, msg.chars().take(160).collect::<String>());
+                // fall back to the small graph so that the bookkeeping below has something to hold
+                small.clone().finish_serial()
+            }
+        };
+        let idx = RefIndex::build(&serial).expect("distinct terminal k-mers");
+        match if outcome == "identical" { answers(&serial, &idx) } else { Err(outcome.clone()) } {
             Ok(want) => {
                 for sz in [2usize, 16] {
                     let pool = rayon::ThreadPoolBuilder::new().num_threads(sz).build().expect("pool");
